@@ -294,6 +294,12 @@ fn run_scenario<S: Service>(plan: &Plan, errs: &Arc<Mutex<Errs>>) {
                                         }
                                     }
                                 }
+                                // an ActiveRequest obtained for a client that has already vanished is stale from the
+                                // start (known finding: it shares slot, channel and request id with the client that
+                                // takes the vanished one's place)
+                                if dead_clients.contains(&(stamp >> 32)) {
+                                    stale_active_exists = true;
+                                }
                                 s.act.push(RActive { stamp, a, seq: 0 });
                                 e.probe("request_received");
                             }
